@@ -76,3 +76,34 @@ impl<T> AtomicPtr<T> {
         self.0.compare_exchange(current, new, success, failure)
     }
 }
+
+/// Serial number of a parsed-document arena (`value::shared::Shared`), and a log of the arenas
+/// released so far, so that a harness can compare the manual reference counting of `Value` with
+/// a model: which arena a value keeps alive, its strong count, and when it is released.
+#[derive(Debug)]
+pub struct ArenaTag(pub usize);
+
+static ARENA_NEXT: std::sync::atomic::AtomicUsize = std::sync::atomic::AtomicUsize::new(0);
+static ARENA_FREED: std::sync::Mutex<Vec<usize>> = std::sync::Mutex::new(Vec::new());
+
+impl Default for ArenaTag {
+    fn default() -> Self {
+        ArenaTag(ARENA_NEXT.fetch_add(1, Ordering::SeqCst))
+    }
+}
+
+impl Drop for ArenaTag {
+    fn drop(&mut self) {
+        ARENA_FREED.lock().unwrap().push(self.0);
+    }
+}
+
+/// Number of arenas created so far.
+pub fn arenas_created() -> usize {
+    ARENA_NEXT.load(Ordering::SeqCst)
+}
+
+/// Takes the log of released arenas (serial numbers, in release order).
+pub fn take_arenas_freed() -> Vec<usize> {
+    std::mem::take(&mut *ARENA_FREED.lock().unwrap())
+}
